@@ -6,6 +6,7 @@ import z3
 from harness.common import run_check, expectation
 from checks.serverfam import *
 from native import oracle
+import checks.c17 as c17        # (registers the native expectation of the main-loop obligation)
 
 STAGES = ['open', 'read', 'toml', 'validate']
 
@@ -377,6 +378,147 @@ def o2_pools(chk, prog):
     chk.end(ob)
 
 
+def o2_rebuild(chk, prog, variant, props=('C14',)):
+    """What a pool that a reload (re)creates may share with the pool it replaces and with its siblings.
+    variant 'auth-query': auth_query is configured (its lookup fails or succeeds: solver's choice) -- an unchanged pool is still kept.
+    variant 'grow':       the definition changed from one shard to two while a server of the old pool was banned -- the new pool's ban list
+                          has one (empty) slot per NEW shard and is not the old pool's.
+    variant 'swap':       the only server of the section is replaced while the old one was banned -- same, with the shard count unchanged.
+    variant 'two-users':  two users in the section -- each (db, user) pool has its own auth_hash cell."""
+    from checks import fromconfig as FC
+    from checks.c07 import mk_pool, mk_addr, ban_entry
+    name = 'O2-rebuild-' + variant
+    ob = chk.begin(name, 'ConnectionPool::from_config (real coroutine) replacing / keeping a pool, variant %r: %s' % (variant, {
+        'auth-query': 'auth_query configured on the section, the lookup succeeding or failing (solver\'s choice), previous pool with a symbolic hash: kept iff the hashes are equal',
+        'grow': 'the section grows from one shard to two and the old pool had a banned server: the re-created pool has a ban list of its own, one empty slot per shard of the NEW definition',
+        'swap': 'the section\'s only server is replaced by another one while the old one was banned: the re-created pool has an empty ban list of its own',
+        'two-users': 'two users under auth_query: the two (db, user) pools do not share their auth_hash cell (a hash obtained or refreshed for one user must not become the other\'s secret)'}[variant]),
+        {'variant': variant})
+    ip = chk.interp(prog, name)
+    install_stats_noops(ip)
+
+    def harness(ip_):
+        cfg = FC.base_config(ip_, prog)
+        nsh = 2 if variant == 'grow' else 1
+        specs = [(str(i), [FC.mk_srvcfg(ip_, prog, rstring('h%d' % i), BV(16, 5432), BV(64, 1))], None) for i in range(nsh)]
+        users = ('u', 'v') if variant == 'two-users' else ('u',)
+        pool = FC.mk_pool_cfg(ip_, prog, specs, users=users)
+        if variant in ('auth-query', 'two-users'):
+            for k in ('auth_query', 'auth_query_user', 'auth_query_password'):
+                setf(prog, pool, 'Pool', k, some(ip_, rstring('x')))
+            if variant == 'two-users':
+                # the second user has no password of its own: its secret is whatever its auth_hash cell holds
+                u2 = pool_users(prog, pool)[1]
+                setf(prog, u2, 'User', 'password', none(ip_))
+        pm = MapV('hashmap')
+        pm.entries.append([rstring('db'), Cell(pool, 'pool')])
+        setf(prog, cfg, 'Config', 'pools', pm)
+        FC.install(ip_, cfg)
+        fetched = []
+
+        def fetch(c, *a):
+            return Opaque('HookFuture', 'fetch')
+        ip_.overrides.append((re.compile(r'AuthPassthrough::fetch_hash$'), fetch))
+
+        def poll_hook(ip2, co, ptr):
+            if isinstance(co, Opaque) and co.ty == 'HookFuture' and co.tag == 'fetch':
+                okk = ip2.choose(2, 'fetch_ok') == 1
+                fetched.append(okk)
+                from mirsym.models.util import ok as _ok, err as _err
+                r_ = _ok(ip2, rstring('md5hash%d' % len(fetched))) if okk else _err(ip2, ip2.make_enum('Error', 'AuthPassthroughError', [rstring('down')]))
+                return EnumV(BV(64, 0), {'Ready': [r_]}, 'Poll')
+            raise Inconclusive('poll of %r' % (co,))
+        ip_.poll_hook = poll_hook
+        old_hash = ip_.fresh(64, 'old_hash')
+        a_old = mk_addr(ip_, prog, 0, 1)
+        bans = MapV('hashmap')
+        if variant in ('grow', 'swap'):
+            e, _ = ban_entry(ip_, prog, a_old, 0)
+            bans.entries.append(e)
+        old_db, _ = mk_pool(ip_, prog, [[a_old]], [bans])
+        setf(prog, old_db, 'ConnectionPool', 'config_hash', old_hash)
+        old_banlist = getf(prog, old_db, 'ConnectionPool', 'banlist')
+        m = FC.current_pools(ip_)
+
+        def ident(db, user):
+            names = prog.src.structs['PoolIdentifier']
+            vals = {'db': rstring(db), 'user': rstring(user)}
+            return Agg([vals[n] for n in names], 'PoolIdentifier', list(names))
+        marker_db = getf(prog, old_db, 'ConnectionPool', 'databases')
+        m.entries.append([ident('db', 'u'), Cell(old_db, 'old_db')])
+        try:
+            FC.run_from_config(ip_, prog)
+        except Panic as p:
+            raise Inconclusive('from_config panic: ' + p.msg)
+        ob.nontrivial += 1
+        ents = {(d, u): c for d, u, c in FC.pool_entries(ip_, prog)}
+        problems = []
+        cp = ents.get(('db', 'u'))
+        if cp is None:
+            problems.append(('configured-pool-missing', 'the configured pool is not registered'))
+        else:
+            reused = getf(prog, cp, 'ConnectionPool', 'databases') is marker_db
+            lh = last_hash(ip_)
+            same = decide(ip_, old_hash.z() == lh) if lh is not None else None
+            if same is True and not reused:
+                problems.append(('unchanged-pool-rebuilt', 'the pool definition did not change but a new pool replaced it: the old one lives on in every client that holds it, '
+                                 'and the server sees the connections of both (up to 2 x pool_size)'))
+            if same is False and reused:
+                problems.append(('changed-pool-kept', 'the pool definition changed but the old pool is kept'))
+            if not reused and variant in ('grow', 'swap'):
+                bl = getf(prog, cp, 'ConnectionPool', 'banlist')
+                if isinstance(bl, Ptr) and isinstance(old_banlist, Ptr) and bl.cell is old_banlist.cell:
+                    problems.append(('banlist-inherited', 'the re-created pool shares the ban list of the pool it replaces: one slot per OLD shard (indexing it with a new shard '
+                                     'panics), holding bans of addresses the new pool does not have (they never expire, cannot be lifted and count towards "all replicas banned")'))
+                else:
+                    lock = deref(ip_, bl) if isinstance(bl, Ptr) else bl
+                    slots = lock.fields[0]
+                    n_slots = len(slots.items) if isinstance(slots, Seq) else None
+                    if n_slots != nsh:
+                        problems.append(('banlist-inherited', 'the re-created pool has %r ban-list slots for %d shards' % (n_slots, nsh)))
+                    elif any(len(s_.entries) for s_ in slots.items):
+                        problems.append(('banlist-inherited', 'the re-created pool starts with bans it did not issue'))
+        if variant == 'two-users':
+            cu, cv = ents.get(('db', 'u')), ents.get(('db', 'v'))
+            if cu is not None and cv is not None:
+                hu, hv = getf(prog, cu, 'ConnectionPool', 'auth_hash'), getf(prog, cv, 'ConnectionPool', 'auth_hash')
+                if isinstance(hu, Ptr) and isinstance(hv, Ptr) and hu.cell is hv.cell:
+                    problems.append(('auth-hash-shared', 'the pools of two users of one section share one auth_hash cell: the hash fetched (or refreshed at a login) for one user '
+                                     'is accepted as the other user\'s secret'))
+        mode = {'auth-query': 'auth_query', 'grow': 'grow', 'swap': 'swap', 'two-users': 'two_users'}[variant]
+        for k, what in problems:
+            for prop_ in props:
+                chk.report(ob, '%s/O2/%s' % (prop_, k), 'reload (%s): %s' % (variant, what), {'variant': variant},
+                           {'commands': [{'op': 'reload_pools', 'mode': mode}], 'expect': ['c14_rebuild']})
+        if len(ob.samples) < 2:
+            ob.samples.append({'registered': sorted(ents), 'fetches': list(fetched)})
+    ip.explore(harness)
+    chk.absorb(ob, ip)
+    chk.end(ob)
+
+
+def pool_users(prog, pool):
+    um = getf(prog, pool, 'Pool', 'users')
+    return [c.val for _, c in um.entries]
+
+
+@expectation('c14_rebuild')
+def c14_rebuild():
+    def f(res):
+        bad = []
+        for r in res:
+            if 'panic' in r or 'error' in r:
+                return ('panic' in r), 'native: %r' % (r,)
+            if r.get('unchanged_reused') is False:
+                bad.append('an unchanged pool (auth_query configured) was rebuilt: two pools now serve the same (database, user)')
+            if r.get('rebuilt_banlist_ok') is False:
+                bad.append('the re-created pool carries the ban list of the pool it replaces (slots %r for %r shards, %r bans)' % (r.get('banlist_slots'), r.get('shards'), r.get('bans')))
+            if r.get('auth_hash_distinct') is False:
+                bad.append('the pools of two users share one auth_hash cell')
+        return bool(bad), '; '.join(bad) or 'native: %r' % (res,)
+    return f
+
+
 # ------------------------------------------------------------------------------------------------ O3 identity of a definition
 # reload_config rebuilds the pools only if `old_config != new_config`, and from_config keeps an existing pool iff Pool::hash_value of the
 # new definition equals the hash the pool was built from.  Both are the PartialEq / Hash impls of the configuration structs (derived or
@@ -525,7 +667,9 @@ def main(chk):
         'configuration is decided under C15; which pools survive a rebuild is decided where ConnectionPool::from_config is encoded (O2). '
         '(O3) What counts as "the definition changed": the PartialEq impls behind `old_config != new_config` and the Hash impls behind '
         'Pool::hash_value are executed from MIR for every struct of the configuration tree, on pairs of values that differ in exactly one field: '
-        'no field may be left out of either.')
+        'no field may be left out of either. (O4) SIGHUP: the select! loop of src/main.rs, from the MIR of the binary target, under event scripts that '
+        'contain SIGHUPs: each one calls reload_config exactly once and does not end the loop (native replay: the real binary, the file rewritten before the signal, '
+        'a login only the new file allows).')
     chk.assumptions += [
         'in-flight transactions, connection survival, removed pools and every timing question are schedules over global state and bb8: outside the claim',
         'toml::from_str / Config::validate / from_config are symbolic-outcome stubs in this check (their own behaviour: C15 and DESIGN.md)',
@@ -542,6 +686,8 @@ def main(chk):
     for sc in ('same', 'changed', 'removed', 'added', 'general'):
         o1_reload_diff(chk, prog, sc)
     o2_pools(chk, prog)
+    for variant in ('auth-query', 'grow', 'swap', 'two-users'):
+        o2_rebuild(chk, prog, variant)
     o3_identity(chk, prog, POOL_TREE + ['Config', 'General'])
     # a file that validation ACCEPTS is stored before the pools are rebuilt: if building them then fails the reload is half applied (new CONFIG,
     # old pools) -- so what validation accepts must be buildable.  The C15 build obligation (real Pool::validate, then the real from_config) for
@@ -549,6 +695,13 @@ def main(chk):
     import checks.c15 as c15
     for role in ('Primary', 'ANY', 'replica', 'nobody'):
         c15.o3_build(chk, prog, ['0'], role, prop='C14')
+    # SIGHUP: the signal arm of main.rs's select! loop, from the MIR of the binary target -- every SIGHUP delivered calls reload_config once
+    # (whatever else is going on: clients connecting and leaving, a shutdown in progress) and never ends the loop
+    from mirsym import build
+    try:
+        c17.o3_main_loop(chk, build.load_bin_program('on'), 'hup', 4 if chk.thorough else 3, prop='C14', only=('sighup-reload', 'exit-without-cause'), oname='O4')
+    except Inconclusive as e:
+        chk.note_inconclusive('O4-main-loop: %s' % e)
 
 
 if __name__ == '__main__':
